@@ -16,11 +16,11 @@ REFINED = ["Repr::simplest_in (continued-fraction descent: soundness, simultaneo
            "RBig::farey_neighbors (determinant 1, bracket, bounds, termination)",
            "RBig::next_up / next_down (all limits >= 1, incl. the 1/limit^2 nudge)", "RBig::nearest",
            "RBig::is_simpler_than (regenerated text = the documented lexicographic order, is_simpler_than_lexicographic)",
-           "pickSimplest (tail of simplest_from_f32/f64/float): optimal over the interior and the allowed end points"]
-FRONTIER = ["RBig::simplest_from_f32 / simplest_from_f64: the model is the REQUIRED behaviour (simplest element of the exact "
-            "round-to-nearest-even interval), proved optimal for that interval (simplest_from_float_partial); that the interval "
-            "is the preimage of the float's rounding is checked on every case by an independent rounding function and a "
-            "brute-force search over smaller denominators, not proved (C06's encode contract)",
+           "pickSimplest (tail of simplest_from_f32/f64/float): optimal over the interior and the allowed end points",
+           "RBig::simplest_from_f32 / simplest_from_f64: result converts back to exactly the float under builder-conv's IEEE "
+           "round-to-nearest-even specification (ieeeRoundRat) and is the simplest fraction that does (simplest_from_f32_exact, "
+           "simplest_from_f64_exact; rounding_set_is_preimage: the interval is the exact preimage for every IEEE binary format)"]
+FRONTIER = [
             "RBig::simplest_from_float (FBig, modes x bases, float/src/round.rs ErrorBounds): modelled at the REQUIRED behaviour "
             "with six named deviation switches that reproduce the code exactly; checked by an independent rounding oracle + "
             "brute force; built on the proved simplest_in / pickSimplest, no theorem about the FBig rounding sets",
@@ -165,6 +165,12 @@ def generate(rng, tier):
             x = (Fraction(rng.randrange(0, d1 + 1), d1) + Fraction(rng.randrange(0, d2 + 1), d2)) / 2 + rng.randrange(-3, 4)
         elif r < 0.6:
             x = Fraction(rng.randrange(-50, 51), lim + rng.choice([0, 1, 2]))
+        elif r < 0.72 and lim >= 2:
+            # just beside k/limit: the neighbour on that side has denominator exactly `limit`
+            k0 = rng.randrange(1, lim)
+            while gcd(k0, lim) != 1:
+                k0 = rng.randrange(1, lim)
+            x = Fraction(k0, lim) + Fraction(rng.choice([-1, 1]), lim * lim * rng.choice([3, 7, 1000])) + rng.randrange(-3, 4)
         else:
             x = rnd_frac(rng, tier) if rng.random() < 0.5 else Fraction(signed(rng, rng.getrandbits(40)), rng.getrandbits(40) + 1)
         if rng.random() < 0.02:
@@ -207,6 +213,17 @@ def gen_fbig(rng, tier):
         s = 0
     else:
         s = rng.randrange(1, b ** k)
+    if rng.random() < 0.15:
+        # integer-valued float with ulp > 1 (positive exponent, no spare precision): the inclusive end
+        # point f -+ ulp/2 of a half mode / f itself of a directed mode is an integer and often the simplest
+        s = rng.choice([1, 2, 3, 5, 7, b - 1, b + 1, rng.randrange(1, b ** 2)])
+        while s % b == 0:
+            s //= b
+        e = rng.choice([1, 1, 2, 3, 5])
+        mode = rng.choice(["HalfAway", "HalfEven", mode])
+        if rng.random() < 0.5:
+            s = -s
+        return Case("s.fromfloat", [mode, "d:%d" % b, hx(s), "d:%d" % e, "d:%d" % ndigits(abs(s), b)])
     while s and s % b == 0:
         s //= b                                           # Repr is normalised: no trailing zero digit
     n = ndigits(s, b)
@@ -228,9 +245,9 @@ LEVEL_TEXT = ("Machine-checked Lean 4 theorems, for all integers and all limits 
               "above/below; nearest returns the closer neighbour with the sign of result - x, Exact iff the denominator fits; "
               "is_simpler_than (text regenerated from the source on every run) is proved to be the documented lexicographic "
               "order (denominator, then numerator magnitude, then sign). The model is "
-              "tied to /repo by differential execution; simplest_from_f32/f64 are decided by that correspondence against a "
-              "model of the REQUIRED behaviour built on the proved simplest_in/pickSimplest plus an independent rounding oracle "
-              "(no encoding theorem); simplest_from_float (FBig, 6 modes x 4 bases) likewise, with the code's deviations "
+              "tied to /repo by differential execution; simplest_from_f32/f64: proved to return a fraction that rounds back "
+              "(nearest-even, the IEEE specification of C06) to exactly the given float and to be the simplest such fraction, "
+              "the interval being the exact preimage of the float; simplest_from_float (FBig, 6 modes x 4 bases) likewise, with the code's deviations "
               "reproduced exactly by six named switches so that every disagreement is attributed.")
 LEVEL_NOTE = ("Trusted: Lean kernel; axioms propext/Classical.choice/Quot.sound; correspondence harness and generators (sampling); "
               "Repr::cmp and dashu-int kernels at their contracts. Repaired in /repo after being found here (fixed: lines in "
